@@ -290,3 +290,388 @@ Proof.
   - apply sel_from_loop; auto.
   - destruct (i_w _ _ I i) as [_ _ _ _ _ _ He _]. exfalso. apply (He Cl P).
 Qed.
+
+(* ---------------------------------------------------------------- a task in a heap gets executed *)
+Definition ticked (s : state) (d : Z) : state :=
+  mkS (clock s + d) (closed s) (ptasks s) (notify s) (pending s) (pp s)
+      (inflight s) (nw s) (ws s) (submitted s) (done s).
+
+Lemma timer_step : forall m s i w' ev, (i < nw s)%nat ->
+  wstep m (clock s) (closed s) (ws s i) LFire w' ev -> step m s (LTimer i) (after s i w' ev).
+Proof. intros. exact (s_work m s i LFire w' ev H H0). Qed.
+
+(* the worker receives the timer value v: every task with deadline < v is executed before the
+   worker is back at its select, by the worker's steps alone, without the clock moving *)
+Lemma delivery_runs : forall m i s v, inv m s -> (i < nw s)%nat ->
+  pc (ws s i) = WSel -> buf (ws s i) = Some v ->
+  exists s', wsteps m i s s' /\ frame i s s' /\ pc (ws s' i) = WSel /\
+    (forall t, In t (heap (ws s i)) ->
+       (tts t < v -> In t (done_tasks s')) /\ (v <= tts t -> In t (heap (ws s' i)))) /\
+    (heap (ws s' i) <> [] ->
+       armed (ws s' i) = Some (hmin (heap (ws s' i)) + (clock s - v)) /\ buf (ws s' i) = None).
+Proof.
+  intros m i s v I Hi P B.
+  pose proof (work_step m s i _ _ Hi (w_recv_timer m (clock s) (closed s) (ws s i) v P B)) as St.
+  set (s1 := after s i _ _) in St.
+  assert (I1 : inv m s1) by (eapply inv_step; eauto).
+  assert (W1 : ws s1 i = mkW WLoop (heap (ws s i)) (armed (ws s i)) None true v (cur (ws s i)) (wlag (ws s i)))
+    by (unfold s1; simpl; rewrite upd_same; auto).
+  destruct (loop_runs m i _ s1 I1 Hi ltac:(rewrite W1; auto) eq_refl) as [s' [W [F [P' [T [A _]]]]]].
+  rewrite W1 in T, A. simpl in T, A.
+  exists s'. split; [econstructor; eauto|].
+  split; [eapply frame_trans; [apply frame_after | exact F]|]. auto.
+Qed.
+
+Lemma armed_runs : forall m i s t a, inv m s -> (i < nw s)%nat ->
+  pc (ws s i) = WSel -> In t (heap (ws s i)) -> armed (ws s i) = Some a -> buf (ws s i) = None ->
+  exists s', isteps m s s' /\ In t (done_tasks s').
+Proof.
+  intros m i s t a I Hi P It A B.
+  set (d := 1 + Z.max 0 (Z.max (a - clock s) (tts t - clock s))).
+  assert (Hd : 0 < d) by (unfold d; lia).
+  pose proof (s_tick m s d Hd) as St1. fold (ticked s d) in St1.
+  set (s1 := ticked s d) in *.
+  assert (I1 : inv m s1) by (eapply inv_step; eauto).
+  assert (Hi1 : (i < nw s1)%nat) by exact Hi.
+  assert (Ha1 : armed (ws s1 i) = Some a) by exact A.
+  assert (Hle : a <= clock s1) by (unfold s1, ticked, d; cbn [clock]; lia).
+  pose proof (timer_step m s1 i _ _ Hi1 (w_fire m (clock s1) (closed s1) (ws s1 i) a Ha1 Hle)) as St2.
+  set (s2 := after s1 i _ _) in St2.
+  assert (I2 : inv m s2) by (eapply inv_step; eauto).
+  assert (P2 : pc (ws s2 i) = WSel) by (unfold s2; simpl; rewrite upd_same; auto).
+  assert (B2 : buf (ws s2 i) = Some (clock s1)).
+  { unfold s2, after. cbn [ws]. rewrite upd_same. cbn [buf]. unfold s1, ticked. cbn [ws clock]. rewrite B. auto. }
+  assert (H2 : heap (ws s2 i) = heap (ws s i)) by (unfold s2; simpl; rewrite upd_same; auto).
+  destruct (delivery_runs m i s2 (clock s1) I2 Hi P2 B2) as [s' [W [_ [_ [T _]]]]].
+  exists s'. split.
+  - eapply is_step; [exact St1 | reflexivity |].
+    eapply is_step; [exact St2 | reflexivity |].
+    eapply wsteps_isteps; eauto.
+  - rewrite H2 in T. apply (T t It). unfold s1, ticked, d. cbn [clock]. lia.
+Qed.
+
+(* a task sitting in the heap of a worker at its select is executed after finitely many steps *)
+Lemma heap_runs : forall m i s t, inv m s -> (i < nw s)%nat ->
+  pc (ws s i) = WSel -> In t (heap (ws s i)) ->
+  exists s', isteps m s s' /\ In t (done_tasks s').
+Proof.
+  intros m i s t I Hi P It.
+  destruct (i_w _ _ I i) as [Ht Ha _ _ _ _ _ _]. unfold timer_ok, armed_ok in *. rewrite P in *.
+  destruct Ht as [T1 _].
+  assert (NE : heap (ws s i) <> []) by (intro E; rewrite E in It; destruct It).
+  destruct (Ha NE) as [[a [A _]]|Bn].
+  - eapply armed_runs; eauto. apply T1. congruence.
+  - destruct (buf (ws s i)) as [v|] eqn:B; [|congruence].
+    destruct (delivery_runs m i s v I Hi P B) as [s' [W [F [P' [T A]]]]].
+    destruct (T t It) as [T1' T2'].
+    destruct (Z_lt_le_dec (tts t) v) as [L|G].
+    + exists s'. split; [eapply wsteps_isteps; eauto | auto].
+    + specialize (T2' G).
+      assert (NE' : heap (ws s' i) <> []) by (intro E; rewrite E in T2'; destruct T2').
+      destruct (A NE') as [A1 A2].
+      assert (I' : inv m s') by (eapply wsteps_inv; eauto).
+      destruct (armed_runs m i s' t _ I' ltac:(rewrite (f_nw _ _ _ F); auto) P' T2' A1 A2) as [s'' [W' D]].
+      exists s''. split; auto. eapply isteps_trans; [eapply wsteps_isteps; eauto | auto].
+Qed.
+
+(* a task held by a worker anywhere in its code is executed after finitely many steps *)
+Lemma worker_task_runs : forall m i s t, inv m s -> (i < nw s)%nat -> closed s = false ->
+  In t (wtasks (ws s i)) -> exists s', isteps m s s' /\ In t (done_tasks s').
+Proof.
+  intros m i s t I Hi Cl It.
+  destruct (worker_returns m i s I Hi Cl) as [s' [W [F [P T]]]].
+  assert (I' : inv m s') by (eapply wsteps_inv; eauto).
+  destruct (T t It) as [H|D].
+  - destruct (heap_runs m i s' t I' ltac:(rewrite (f_nw _ _ _ F); auto) P H) as [s'' [W' D]].
+    exists s''. split; auto. eapply isteps_trans; [eapply wsteps_isteps; eauto | auto].
+  - exists s'. split; auto. eapply wsteps_isteps; eauto.
+Qed.
+
+(* ---------------------------------------------------------------- from prepend to a worker *)
+Definition handed (s : state) (i : nat) (t : task) (rest : list task) : state :=
+  mkS (clock s) (closed s) (ptasks s) (notify s) (pending s) PFeed rest (nw s)
+      (upd (ws s) i (received (ws s i) t)) (submitted s) (done s).
+
+(* prepend hands over the head of its in-flight slice to worker 0 *)
+Lemma hand_head : forall m s u rest, inv m s -> closed s = false -> (0 < nw s)%nat ->
+  pp s = PFeed -> inflight s = u :: rest ->
+  exists s2, isteps m s s2 /\ inv m s2 /\ closed s2 = false /\ nw s2 = nw s /\ pp s2 = PFeed /\
+             inflight s2 = rest /\ ptasks s2 = ptasks s /\ In u (wtasks (ws s2 0%nat)).
+Proof.
+  intros m s u rest I Cl Hn Pp Fl.
+  destruct (worker_returns m 0%nat s I Hn Cl) as [s1 [W [F [P _]]]].
+  assert (I1 : inv m s1) by (eapply wsteps_inv; eauto).
+  assert (St : step m s1 (LHand 0) (handed s1 0 u rest)).
+  { apply s_hand; auto.
+    - rewrite (f_pp _ _ _ F); auto.
+    - rewrite (f_inflight _ _ _ F); auto.
+    - rewrite (f_nw _ _ _ F); auto. }
+  exists (handed s1 0 u rest).
+  split; [eapply isteps_trans; [eapply wsteps_isteps; eauto | eapply isteps_one; eauto]|].
+  split; [eapply inv_step; eauto|]. simpl.
+  rewrite (f_closed _ _ _ F), (f_nw _ _ _ F), (f_ptasks _ _ _ F).
+  repeat split; auto; try (rewrite upd_same; unfold wtasks, received; simpl; auto).
+Qed.
+
+Lemma inflight_runs : forall m t l s, inv m s -> closed s = false -> (0 < nw s)%nat ->
+  pp s = PFeed -> inflight s = l -> In t l ->
+  exists s', isteps m s s' /\ In t (done_tasks s').
+Proof.
+  intros m t. induction l; intros s I Cl Hn Pp Fl It; [destruct It|].
+  destruct (hand_head m s a l I Cl Hn Pp Fl) as [s2 [W [I2 [Cl2 [N2 [P2 [F2 [_ Iu]]]]]]]].
+  destruct It as [->|It].
+  - destruct (worker_task_runs m 0%nat s2 t I2 ltac:(lia) Cl2 Iu) as [s' [W' D]].
+    exists s'. split; auto. eapply isteps_trans; eauto.
+  - destruct (IHl s2 I2 Cl2 ltac:(lia) P2 F2 It) as [s' [W' D]].
+    exists s'. split; auto. eapply isteps_trans; eauto.
+Qed.
+
+Lemma inflight_drains : forall m l s, inv m s -> closed s = false -> (0 < nw s)%nat ->
+  pp s = PFeed -> inflight s = l ->
+  exists s', isteps m s s' /\ pp s' = PFeed /\ inflight s' = [] /\ ptasks s' = ptasks s.
+Proof.
+  intros m. induction l; intros s I Cl Hn Pp Fl.
+  - exists s. repeat split; auto. constructor.
+  - destruct (hand_head m s a l I Cl Hn Pp Fl) as [s2 [W [I2 [Cl2 [N2 [P2 [F2 [T2 _]]]]]]]].
+    destruct (IHl s2 I2 Cl2 ltac:(lia) P2 F2) as [s' [W' [A [B C]]]].
+    exists s'. repeat split; auto; try congruence. eapply isteps_trans; eauto.
+Qed.
+
+Lemma got_runs : forall m t s, inv m s -> closed s = false -> (0 < nw s)%nat ->
+  pp s = PGot -> In t (ptasks s) -> exists s', isteps m s s' /\ In t (done_tasks s').
+Proof.
+  intros m t s I Cl Hn Pp It.
+  pose proof (s_p_swap m s Pp) as St.
+  match type of St with step _ _ _ ?x => set (s1 := x) in * end.
+  assert (I1 : inv m s1) by (eapply inv_step; eauto).
+  destruct (inflight_runs m t (ptasks s) s1 I1 Cl Hn eq_refl eq_refl It) as [s' [W D]].
+  exists s'. split; auto. eapply is_step; eauto.
+Qed.
+
+Lemma sel_runs : forall m t s, inv m s -> closed s = false -> (0 < nw s)%nat ->
+  pp s = PSel -> In t (ptasks s) -> exists s', isteps m s s' /\ In t (done_tasks s').
+Proof.
+  intros m t s I Cl Hn Pp It.
+  assert (NE : ptasks s <> []) by (intro E; rewrite E in It; destruct It).
+  assert (K : forall s0, inv m s0 -> closed s0 = false -> (0 < nw s0)%nat -> pp s0 = PSel ->
+              In t (ptasks s0) -> notify s0 = true -> exists s', isteps m s0 s' /\ In t (done_tasks s')).
+  { intros s0 I0 Cl0 Hn0 Pp0 It0 Nt0.
+    pose proof (s_p_notify m s0 Pp0 Nt0) as St.
+    match type of St with step _ _ _ ?x => set (s1 := x) in * end.
+    assert (I1 : inv m s1) by (eapply inv_step; eauto).
+    destruct (got_runs m t s1 I1 Cl0 Hn0 eq_refl It0) as [s' [W D]].
+    exists s'. split; auto. eapply is_step; eauto. }
+  destruct (i_notify _ _ I NE) as [Nt|[Pn|Pg]]; [auto | | congruence].
+  destruct (pending s) as [|n] eqn:E; [lia|].
+  pose proof (s_notify m s n E) as St.
+  match type of St with step _ _ _ ?x => set (s1 := x) in * end.
+  assert (I1 : inv m s1) by (eapply inv_step; eauto).
+  destruct (K s1 I1 Cl Hn Pp It eq_refl) as [s' [W D]].
+  exists s'. split; auto. eapply is_step; eauto.
+Qed.
+
+Lemma ptasks_runs : forall m t s, inv m s -> closed s = false -> (0 < nw s)%nat ->
+  In t (ptasks s) -> exists s', isteps m s s' /\ In t (done_tasks s').
+Proof.
+  intros m t s I Cl Hn It.
+  destruct (pp s) eqn:Pp.
+  - apply sel_runs; auto.
+  - apply got_runs; auto.
+  - destruct (inflight_drains m _ s I Cl Hn Pp eq_refl) as [s1 [W [P1 [F1 T1]]]].
+    assert (I1 : inv m s1) by (eapply isteps_inv; eauto).
+    assert (Cl1 : closed s1 = false) by (rewrite (isteps_closed _ _ _ W); auto).
+    assert (Hn1 : (0 < nw s1)%nat) by (rewrite (isteps_nw _ _ _ W); auto).
+    pose proof (s_p_done m s1 P1 F1) as St.
+    match type of St with step _ _ _ ?x => set (s2 := x) in * end.
+    assert (I2 : inv m s2) by (eapply inv_step; eauto).
+    destruct (sel_runs m t s2 I2 Cl1 Hn1 eq_refl ltac:(unfold s2; simpl; rewrite T1; auto)) as [s' [W' D]].
+    exists s'. split; auto. eapply isteps_trans; [exact W|]. eapply is_step; eauto.
+  - exfalso. apply (i_exit _ _ I Cl Pp).
+Qed.
+
+(* ---------------------------------------------------------------- whatever is somewhere was submitted *)
+Lemma wstep_tasks : forall m clk cl w l w' ev, wstep m clk cl w l w' ev ->
+  (pc w = WStart -> heap w = [] /\ cur w = None) ->
+  (forall u, In u (wtasks w') -> In u (wtasks w)) /\
+  (forall t n, ev = Some (t, n) -> In t (wtasks w)).
+Proof.
+  intros m clk cl w l w' ev St Hs. inversion St; subst; unfold wtasks; simpl;
+    (split; [|intros; try discriminate]); auto.
+  - intros u []. 
+  - rewrite H0. simpl; auto.
+  - inversion H1; subst. rewrite H0. left; auto.
+  - rewrite H0. simpl; auto.
+  - rewrite H0. intros u Iu.
+    assert (X : In u (h1 ++ h2) -> In u (h1 ++ t :: h2)).
+    { intros Y. apply in_app_or in Y. apply in_or_app. destruct Y; auto. right; right; auto. }
+    destruct (cur w); simpl in *; intuition.
+  - inversion H3; subst. rewrite H0. destruct (cur w); [right|]; apply in_or_app; right; left; auto.
+Qed.
+
+Record sub_ok (s : state) : Prop := mkSub {
+  so_p : forall u, In u (ptasks s) -> In u (submitted s);
+  so_f : forall u, In u (inflight s) -> In u (submitted s);
+  so_w : forall i u, In u (wtasks (ws s i)) -> In u (submitted s);
+  so_d : forall u, In u (done_tasks s) -> In u (submitted s)
+}.
+
+Lemma sub_ok_reachable : forall m s, reachable m s -> sub_ok s.
+Proof.
+  induction 1.
+  - constructor; simpl; intros; tauto.
+  - pose proof (reachable_inv m s H) as I. destruct IHreachable as [Sp Sf Sw Sd].
+    inversion H0; subst; constructor; simpl; auto.
+    + intros u Iu. apply in_app_or in Iu. destruct Iu as [Iu|[<-|[]]]; auto.
+    + intros j u Iu. right. eauto.
+    + intros u [].
+    + intros u Iu. apply Sf. rewrite H2. right; auto.
+    + intros j u. unfold upd. destruct (Nat.eqb_spec j i); eauto. subst.
+      unfold wtasks, received. simpl. intros [<-|Iu].
+      * apply Sf. rewrite H2. left; auto.
+      * apply (Sw i). unfold wtasks. destruct (cur (ws s i)); simpl; auto.
+    + intros u [].
+    + intros j u. unfold upd. destruct (Nat.eqb_spec j i); eauto. subst.
+      destruct (wstep_tasks _ _ _ _ _ _ _ H2) as [A _]; eauto.
+      intros P. destruct (i_w _ _ I i) as [_ _ Hc _ _ _ _ Hs]. unfold cur_ok in Hc. rewrite P in Hc. auto.
+    + unfold done_tasks, add_done. simpl. destruct ev as [[t n]|]; auto. simpl. intros u [<-|Iu]; auto.
+      destruct (wstep_tasks _ _ _ _ _ _ _ H2) as [_ B]; eauto.
+      intros P. destruct (i_w _ _ I i) as [_ _ Hc _ _ _ _ Hs]. unfold cur_ok in Hc. rewrite P in Hc. auto.
+Qed.
+
+Lemma cntid_two : forall t u l, In t l -> In u l -> tid u = tid t -> u <> t -> (2 <= cntid (tid t) l)%nat.
+Proof.
+  induction l; simpl; intros It Iu E N; [tauto|].
+  destruct It as [->|It], Iu as [->|Iu]; try congruence.
+  - rewrite Nat.eqb_refl. pose proof (cntid_in _ _ Iu). rewrite E in H. lia.
+  - rewrite E, Nat.eqb_refl. pose proof (cntid_in _ _ It). lia.
+  - specialize (IHl It Iu E N). lia.
+Qed.
+
+Lemma submitted_unique : forall m s t u, reachable m s ->
+  In t (submitted s) -> In u (submitted s) -> tid u = tid t -> u = t.
+Proof.
+  intros m s t u R It Iu E. destruct (one_place m s R (tid t)) as [_ F].
+  destruct t as [a b], u as [c d]. simpl in *. subst.
+  destruct (Z.eq_dec d b); [subst; auto|].
+  pose proof (cntid_two (mkTask a b) (mkTask a d) _ It Iu eq_refl ltac:(congruence)). simpl in *. lia.
+Qed.
+
+(* ---------------------------------------------------------------- progress *)
+Theorem runs : forall m s t, reachable m s -> closed s = false -> (0 < nw s)%nat ->
+  In t (submitted s) -> exists s', isteps m s s' /\ In t (done_tasks s').
+Proof.
+  intros m s t R Cl Hn It.
+  pose proof (reachable_inv m s R) as I. pose proof (sub_ok_reachable m s R) as [Sp Sf Sw Sd].
+  pose proof (submitted_one_place m s t R It) as P. unfold places in P.
+  assert (U : forall u, In u (submitted s) -> tid u = tid t -> u = t)
+    by (intros; eapply submitted_unique; eauto).
+  destruct (Nat.eq_dec (cntid (tid t) (ptasks s)) 0) as [E1|E1].
+  2: { assert (C : (1 <= cntid (tid t) (ptasks s))%nat) by lia.
+       destruct (cntid_ex _ _ C) as [u [Iu Eu]].
+       rewrite (U u (Sp u Iu) Eu) in Iu. apply ptasks_runs; auto. }
+  destruct (Nat.eq_dec (cntid (tid t) (inflight s)) 0) as [E2|E2].
+  2: { assert (C : (1 <= cntid (tid t) (inflight s))%nat) by lia.
+       destruct (cntid_ex _ _ C) as [u [Iu Eu]].
+       rewrite (U u (Sf u Iu) Eu) in Iu.
+       destruct (pp s) eqn:Pp.
+       - rewrite (i_pp _ _ I (or_introl Pp)) in Iu. destruct Iu.
+       - rewrite (i_pp _ _ I (or_intror Pp)) in Iu. destruct Iu.
+       - eapply inflight_runs; eauto.
+       - exfalso. apply (i_exit _ _ I Cl Pp). }
+  destruct (Nat.eq_dec (cnt_workers (tid t) (ws s) (nw s)) 0) as [E3|E3].
+  2: { assert (C : (1 <= cnt_workers (tid t) (ws s) (nw s))%nat) by lia.
+       destruct (cnt_workers_ex _ _ _ C) as [i [Hi Ci]].
+       destruct (cntid_ex _ _ Ci) as [u [Iu Eu]].
+       rewrite (U u (Sw i u Iu) Eu) in Iu. eapply worker_task_runs; eauto. }
+  assert (C : (1 <= cntid (tid t) (done_tasks s))%nat) by lia.
+  destruct (cntid_ex _ _ C) as [u [Iu Eu]].
+  rewrite (U u (Sd u Iu) Eu) in Iu. exists s. split; auto. constructor.
+Qed.
+
+(* ---------------------------------------------------------------- promptness details *)
+Ltac inv_work St :=
+  inversion St; subst;
+  match goal with H : wl_label _ ?l = LWork _ |- _ => destruct l; inversion H; subst; clear H end;
+  simpl in *; rewrite ?upd_same in *.
+
+(* overdue on receipt: the worker's next step is the clock read, which selects execute() ... *)
+Lemma overdue_step1 : forall m s i t s1, step m s (LWork i) s1 ->
+  pc (ws s i) = WTaskNow -> cur (ws s i) = Some t -> tts t < clock s ->
+  pc (ws s1 i) = WTaskExec /\ cur (ws s1 i) = Some t /\ clock s1 = clock s.
+Proof.
+  intros m s i t s1 St P C L. inv_work St.
+  match goal with H : wstep _ _ _ _ _ _ _ |- _ => inversion H; subst; simpl in *; try congruence end.
+  assert (t0 = t) by congruence. subst.
+  apply Z.ltb_lt in L. rewrite L. auto.
+Qed.
+
+(* ... and the step after that IS execute() *)
+Lemma overdue_step2 : forall m s i t s1, step m s (LWork i) s1 ->
+  pc (ws s i) = WTaskExec -> cur (ws s i) = Some t ->
+  done s1 = mkE t (wnow (ws s i)) (clock s) i :: done s /\ pc (ws s1 i) = WSel.
+Proof.
+  intros m s i t s1 St P C. inv_work St.
+  match goal with H : wstep _ _ _ _ _ _ _ |- _ => inversion H; subst; simpl in *; try congruence end.
+  assert (t0 = t) by congruence. subst. auto.
+Qed.
+
+(* the delivered time equals the earliest deadline (`After` is strict): the worker re-arms
+   with duration 0, i.e. for the current instant - the timer can fire at once *)
+Lemma equal_deadline_rearm : forall m s i s1, step m s (LWork i) s1 ->
+  pc (ws s i) = WLoop -> heap (ws s i) <> [] -> wnow (ws s i) = hmin (heap (ws s i)) ->
+  armed (ws s1 i) = Some (clock s) /\ pc (ws s1 i) = WSel /\ heap (ws s1 i) = heap (ws s i) /\
+  clock s1 = clock s.
+Proof.
+  intros m s i s1 St P NE E. inv_work St.
+  match goal with H : wstep _ _ _ _ _ _ _ |- _ => inversion H; subst; simpl in *; try congruence; try lia end.
+  repeat split; auto. f_equal. lia.
+Qed.
+
+(* ---------------------------------------------------------------- Close *)
+Inductive steps (m : sem) : state -> state -> Prop :=
+| st_refl s : steps m s s
+| st_step s l s1 s2 : step m s l s1 -> steps m s1 s2 -> steps m s s2.
+
+Lemma steps_reachable : forall m s s', steps m s s' -> reachable m s -> reachable m s'.
+Proof. induction 1; auto. intros. apply IHsteps. econstructor; eauto. Qed.
+
+(* once prepend has returned, whatever is in prependTasks stays there for ever *)
+Lemma exited_prepend_keeps : forall m s s' t, steps m s s' ->
+  pp s = PExit -> In t (ptasks s) -> pp s' = PExit /\ In t (ptasks s').
+Proof.
+  induction 1; auto. intros P I. apply IHsteps.
+  - inversion H; subst; simpl; auto; try congruence;
+      try match goal with H : _ \/ _ |- _ => destruct H as [?|[? ?]]; congruence end.
+  - inversion H; subst; simpl; auto; try congruence; try (apply in_or_app; auto).
+Qed.
+
+Definition dropped_state (c0 : Z) (t : task) : state :=
+  mkS c0 true [t] false 1 PExit [] 1 (fun _ => w0 c0) [t] [].
+
+Lemma dropped_reachable : forall m c0 t, reachable m (dropped_state c0 t).
+Proof.
+  intros m c0 t. unfold dropped_state.
+  assert (R0 : reachable m (init 1 c0)) by constructor.
+  assert (R1 : reachable m (mkS c0 false [t] false 1 PSel [] 1 (fun _ => w0 c0) [t] [])).
+  { eapply r_step; [exact R0|]. apply (s_put m (init 1 c0) t). simpl. tauto. }
+  assert (R2 : reachable m (mkS c0 true [t] false 1 PSel [] 1 (fun _ => w0 c0) [t] [])).
+  { eapply r_step; [exact R1|]. apply (s_close m (mkS c0 false [t] false 1 PSel [] 1 (fun _ => w0 c0) [t] [])). }
+  eapply r_step; [exact R2|].
+  apply (s_p_die m (mkS c0 true [t] false 1 PSel [] 1 (fun _ => w0 c0) [t] [])); simpl; auto.
+Qed.
+
+(* Close guarantees nothing for tasks that have not run yet: a task Put strictly before Close
+   may never run, however far the clock advances *)
+Theorem close_may_drop : forall m c0 t,
+  reachable m (dropped_state c0 t) /\ In t (submitted (dropped_state c0 t)) /\
+  closed (dropped_state c0 t) = true /\
+  forall s', steps m (dropped_state c0 t) s' -> ~ In t (done_tasks s').
+Proof.
+  intros m c0 t. pose proof (dropped_reachable m c0 t) as R.
+  split; auto. split; [simpl; auto|]. split; auto.
+  intros s' St D.
+  destruct (exited_prepend_keeps m _ _ t St eq_refl ltac:(simpl; auto)) as [_ I].
+  pose proof (steps_reachable _ _ _ St R) as R'.
+  destruct (executed_gone m s' t R' D) as [Z0 _].
+  pose proof (cntid_in _ _ I). lia.
+Qed.
